@@ -54,7 +54,7 @@ def _participates(g: str, facts: set[tuple[str, bool]], G, B, alias_inv: dict[st
     if grp.unconditional:
         return True
     atoms = [f"m.group('{g}')"] + alias_inv.get(g, [])
-    if any((a, True) in facts for a in atoms):
+    if any((a, True) in facts or (f"{a} is None", False) in facts or (f"{a} is not None", True) in facts for a in atoms):
         return True
     if grp.parent is not None and not grp.optional_in_parent and _participates(grp.parent, facts, G, B, alias_inv, depth + 1):
         return True
@@ -66,7 +66,8 @@ def _participates(g: str, facts: set[tuple[str, bool]], G, B, alias_inv: dict[st
         if parent_ok:
             others = [j for j in range(br.n_alts) if j != ai]
             if others and all(j in br.covers and G[br.covers[j]].min_len > 0 and
-                              any((a, False) in facts for a in [f"m.group('{br.covers[j]}')"] + alias_inv.get(br.covers[j], []))
+                              any((a, False) in facts or (f"{a} is None", True) in facts or (f"{a} is not None", False) in facts
+                                  for a in [f"m.group('{br.covers[j]}')"] + alias_inv.get(br.covers[j], []))
                               for j in others):
                 return True
     return False
